@@ -60,10 +60,16 @@ pub struct CanonOpts {
 /// Canonical rendering of the sub-tree at `idx`: spans are not part of Node's Debug output, child
 /// indices are expanded in place, constants are resolved to their values.
 pub fn canonical(ast: &Ast, idx: AstIndex, opts: CanonOpts, depth: usize) -> String {
+    canonical_in(ast, idx, opts, depth, "")
+}
+
+fn canonical_in(ast: &Ast, idx: AstIndex, opts: CanonOpts, depth: usize, parent: &str) -> String {
     if depth > 400 {
         return "<too-deep>".into();
     }
     let mut d = node_debug(ast, idx);
+    let kind_owned = kind_of(&d).to_string();
+    let my_kind = kind_owned.as_str();
     if opts.ignore_cosmetic {
         for (from, to) in [
             ("inline: true", "inline: _"),
@@ -84,7 +90,7 @@ pub fn canonical(ast: &Ast, idx: AstIndex, opts: CanonOpts, depth: usize) -> Str
     let mut subs: Vec<(usize, usize, String)> = vec![];
     for (s, e, n) in scan_indices(&d, "AstIndex") {
         if (n as usize) < ast.nodes().len() {
-            subs.push((s, e, format!("<{}>", canonical(ast, AstIndex::from(n), opts, depth + 1))));
+            subs.push((s, e, format!("<{}>", canonical_in(ast, AstIndex::from(n), opts, depth + 1, my_kind))));
         }
     }
     for (s, e, n) in scan_indices(&d, "ConstantIndex") {
@@ -100,7 +106,24 @@ pub fn canonical(ast: &Ast, idx: AstIndex, opts: CanonOpts, depth: usize) -> Str
         last = e;
     }
     out.push_str(&d[last..]);
-    // local_count is derived from analysis, keep it; done
+    if opts.ignore_cosmetic && my_kind == "Nested" {
+        // parentheses around a whole statement / block tail (the printer adds them to lines that
+        // start with '-') or around a number literal
+        let kids = children(ast, idx);
+        if kids.len() == 1 {
+            let stmt_pos = matches!(parent, "MainBlock" | "Block" | "Function" | "If" | "MatchArm" | "SwitchArm" | "For" | "While" | "Until" | "Loop" | "Try");
+            if stmt_pos || matches!(kind_of(&node_debug(ast, kids[0])), "Int" | "SmallInt" | "Float") {
+                return canonical_in(ast, kids[0], opts, depth + 1, parent);
+            }
+        }
+    }
+    if opts.ignore_cosmetic && out.starts_with("Block([<") {
+        // a block holding a single expression is the indented spelling of that expression
+        let kids = children(ast, idx);
+        if kids.len() == 1 {
+            return canonical_in(ast, kids[0], opts, depth + 1, parent);
+        }
+    }
     out
 }
 
